@@ -24,6 +24,7 @@ type lcase struct {
 	Rel     bool       `json:"rel"`     // hand relative paths to LoadSources
 	DupSame bool       `json:"dupsame"` // a repeated directory means the very same file twice
 	Kind    string     `json:"kind"`    // "" | missing | nongo | typeerror | deperror
+	Spell   []string   `json:"spell,omitempty"` // per file, overriding Rel: abs | rel | dot (./relative)
 }
 
 type obs struct {
@@ -113,10 +114,19 @@ func runCase(lc lcase, base string) (o obs) {
 			rd = []string{}
 		}
 		o.Reldirs = append(o.Reldirs, rd)
+		spell := "abs"
 		if lc.Rel {
-			rel, _ := filepath.Rel(caseDir, path)
+			spell = "rel"
+		}
+		if i < len(lc.Spell) && lc.Spell[i] != "" {
+			spell = lc.Spell[i]
+		}
+		switch rel, _ := filepath.Rel(caseDir, path); spell {
+		case "rel":
 			files = append(files, rel)
-		} else {
+		case "dot":
+			files = append(files, "./"+rel)
+		default:
 			files = append(files, path)
 		}
 	}
@@ -247,6 +257,29 @@ func Run(c *core.Ctx, replay string) (*core.Result, error) {
 			}
 			cases = append(cases, lc)
 		}
+		// the same file set under mixed path spellings: the answer does not depend on how a path is written
+		srng := rand.New(rand.NewSource(c.Seed + 7919))
+		spells := []string{"abs", "rel", "dot"}
+		mixed := []lcase{
+			{Request: [][]string{{"foo"}, {"a"}, {"foo"}}, Spell: []string{"dot", "rel", "rel"}},
+			{Request: [][]string{{"foo"}, {"a"}, {"foo"}}, Spell: []string{"abs", "rel", "rel"}},
+			{Request: [][]string{{"a", "foo"}, {"a"}, {"foobar"}}, Spell: []string{"rel", "dot", "abs"}},
+		}
+		for k := 0; k < n/5; k++ {
+			req := all[srng.Intn(len(all))]
+			if len(req) < 2 {
+				continue
+			}
+			lc := lcase{Request: req, DupSame: srng.Intn(2) == 0}
+			for range req {
+				lc.Spell = append(lc.Spell, spells[srng.Intn(3)])
+			}
+			mixed = append(mixed, lc)
+		}
+		for _, lc := range mixed {
+			lc.Case = len(cases) + 1
+			cases = append(cases, lc)
+		}
 	}
 	obsv, err := runCases(c, cases)
 	if err != nil {
@@ -284,11 +317,11 @@ func Run(c *core.Ctx, replay string) (*core.Result, error) {
 			return nil, err
 		}
 		_ = again
-		res.Violations = append(res.Violations, core.Violation{Key: classify(lc, why), What: fmt.Sprintf("%s; request=%v rel=%v kind=%q", why, lc.Request, lc.Rel, lc.Kind), Replay: lc})
+		res.Violations = append(res.Violations, core.Violation{Key: classify(lc, why), What: fmt.Sprintf("%s; request=%v rel=%v spell=%v kind=%q", why, lc.Request, lc.Rel, lc.Spell, lc.Kind), Replay: lc})
 	}
 	distinct := map[string]bool{}
 	for i, lc := range cases {
-		k := fmt.Sprint(lc.Request, lc.Rel, lc.DupSame, lc.Kind)
+		k := fmt.Sprint(lc.Request, lc.Rel, lc.DupSame, lc.Kind, lc.Spell)
 		if len(lc.Request) > 1 || lc.Kind != "" {
 			distinct[k] = true
 		}
@@ -299,7 +332,7 @@ func Run(c *core.Ctx, replay string) (*core.Result, error) {
 	res.Evaluations = len(cases)
 	res.TracesVsImpl = len(cases)
 	res.Nontrivial = len(distinct)
-	res.Rule = fmt.Sprintf("requests drawn (seeded) from the %d requests TLC enumerated for Loader.cfg (<=3 files in directories of depth<=2 over {foo,foobar,foo-x,a}), plus 16 fixed witnesses (sibling name prefixes, nesting, duplicates, single file), each with random path style (absolute/relative), duplicate style and, for 1 in 6, an error kind (missing / non-Go / type error); non-trivial = more than one file or an error case", nEnum)
+	res.Rule = fmt.Sprintf("requests drawn (seeded) from the %d requests TLC enumerated for Loader.cfg (<=3 files in directories of depth<=2 over {foo,foobar,foo-x,a}), plus 16 fixed witnesses (sibling name prefixes, nesting, duplicates, single file), each with random path style (absolute/relative; a fifth more with a spelling per file: absolute, relative, ./relative), duplicate style and, for 1 in 6, an error kind (missing / non-Go / type error); non-trivial = more than one file or an error case", nEnum)
 	res.Extra = map[string]any{"enumerated_by_tlc": nEnum}
 	return res, nil
 }
